@@ -9,8 +9,10 @@ observable outcome (Ok/Err, byte position, token queue, stack, look-ahead, atomi
 interprets each program with real closures on a real ParserState - linked with pest's default
 features and, in a second binary, WITHOUT memchr - and compares.  The `until` slice enumerates
 skip_until with 0..3 needles incl. the empty needle, shared first bytes and multi-byte first
-characters.  MC_PsmNest grows programs of pushes, drops and nested sequence / restore_on_err / lookahead /
-optional checkpoints one symbol per TLC step (every program up to 8-9 symbols) and replays each.
+characters.  MC_PsmNest grows programs one symbol per TLC step - fresh pushes and drops (up to 8-9 symbols), or the
+matching family push a / push b / match_string / peek / pop / match_peek / match_pop / peek slices
+(up to 5-6 symbols, every input over {a, b} up to length 3) - between nested sequence / restore_on_err /
+lookahead / optional checkpoints, and every reachable program is replayed.
 impl -> spec: random programs of depth up to 8 are run on both builds and every recorded
 outcome is re-computed by TLC (Trace_Psm)."""
 import json
@@ -19,8 +21,8 @@ from concurrent.futures import ThreadPoolExecutor
 from vlib import *
 from pegrun import *
 
-SL_QUICK = [("core", 3, 3, 8), ("stack", 3, 3, 6), ("until", 2, 4, 4)]
-SL_THOROUGH = [("core", 4, 3, 16), ("stack", 4, 3, 16), ("until", 2, 5, 8)]
+SL_QUICK = [("core", 4, 3, 16), ("stack", 4, 3, 16), ("until", 2, 4, 4)]
+SL_THOROUGH = [("core", 4, 4, 16), ("stack", 4, 4, 16), ("until", 2, 5, 8), ("core", 5, 2, 32)]
 
 
 def run(ctx):
@@ -72,35 +74,41 @@ def run(ctx):
                     ctx.violations += rep["mismatch_count"] - 5
                 if rep.get("sample") and len(ctx.cov["samples"]) < 2 and label == "default":
                     ctx.sample({"kind": "TLC-generated program replayed on the real ParserState", "slice": name, **rep["sample"]})
-    # nested checkpoints: programs grown symbol by symbol as TLC states (MC_PsmNest)
-    closers = '{"seq", "seqfail", "restore", "restorefail", "lookpos", "looknegfail", "optfail", "optseqfail"}'
-    cfgname = "MC_PsmNest_run.cfg"
-    with open(os.path.join(SPEC, cfgname), "w") as f:
-        f.write("SPECIFICATION Spec\nCONSTANTS\n  MaxSyms = %d\n  MaxDepth = %d\n  Closers = %s\n"
-                "INVARIANTS NestedAllOrNothing NestedLookaheadNeutral NoSnapshotLeft Emit\nCHECK_DEADLOCK FALSE\n" % (8 if quick else 9, 3 if quick else 4, closers))
-    try:
-        r = tlc("MC_PsmNest", cfg=cfgname, workdir=ctx.work, outname="psm_nest.out", workers=12, timeout=6000, xmx="8g")
-    finally:
-        os.remove(os.path.join(SPEC, cfgname))
-    if not r.ok:
-        raise ToolError("MC_PsmNest: %s" % r.violated)
-    ctx.cov["states"] += r.distinct
-    ctx.cov["transitions"] += r.generated
-    cases = os.path.join(ctx.work, "psm_cases_nest.ndjson")
-    printed_json(r.out, cases)
-    os.remove(r.out)
-    for (label, binp) in (("default", vh), ("no-memchr", vhn)):
-        rep = run_json([binp, "psm-replay", "--cases", cases], timeout=6000)
-        total += rep["cases"]
-        for m in rep["mismatches"][:5]:
-            d = {"kind": "replay", "spec": "ParserStateMachine", "slice": "nest", "build": label}
-            d.update(m)
-            ctx.violation(d)
-        if rep["mismatch_count"] > 5:
-            ctx.violations += rep["mismatch_count"] - 5
-        ctx.cov["engines"].append({"name": "MC_PsmNest", "role": "programs of nested checkpoints grown as TLC states, replayed on the real ParserState (%s build)" % label,
-                                   "programs": rep["programs"], "mismatches": rep["mismatch_count"]})
-    os.remove(cases)
+    # nested checkpoints: programs grown symbol by symbol as TLC states (MC_PsmNest), two families
+    allclosers = '{"seq", "seqfail", "restore", "restorefail", "lookpos", "looknegfail", "optfail", "optseqfail"}'
+    fams = [("fresh", '{"push", "drop"}', allclosers, 8 if quick else 9, 3 if quick else 4, 0),
+            ("match", '{"pusha", "pushb", "stra", "peek", "pop", "matchpeek", "matchpop", "slice01", "sliceneg"}',
+             '{"seq", "seqfail", "optfail", "looknegfail", "lookpos"}', 5 if quick else 6, 2, 3)]
+    for (fam, prims, closers, syms, depth, ilen) in fams:
+        cfgname = "MC_PsmNest_%s_run.cfg" % fam
+        with open(os.path.join(SPEC, cfgname), "w") as f:
+            f.write("SPECIFICATION Spec\nCONSTANTS\n  MaxSyms = %d\n  MaxDepth = %d\n  Closers = %s\n  Prims = %s\n  InputLen = %d\n"
+                    "INVARIANTS NestedAllOrNothing NestedLookaheadNeutral PrimFailsInPlace NoSnapshotLeft Emit\nCHECK_DEADLOCK FALSE\n"
+                    % (syms, depth, closers, prims, ilen))
+        try:
+            r = tlc("MC_PsmNest", cfg=cfgname, workdir=ctx.work, outname="psm_nest_%s.out" % fam, workers=12, timeout=6000, xmx="8g")
+        finally:
+            os.remove(os.path.join(SPEC, cfgname))
+        if not r.ok:
+            raise ToolError("MC_PsmNest %s: %s" % (fam, r.violated))
+        ctx.cov["states"] += r.distinct
+        ctx.cov["transitions"] += r.generated
+        cases = os.path.join(ctx.work, "psm_cases_nest_%s.ndjson" % fam)
+        printed_json(r.out, cases)
+        os.remove(r.out)
+        for (label, binp) in (("default", vh), ("no-memchr", vhn)):
+            rep = run_json([binp, "psm-replay", "--cases", cases], timeout=6000)
+            total += rep["cases"]
+            for m in rep["mismatches"][:5]:
+                d = {"kind": "replay", "spec": "ParserStateMachine", "slice": "nest-" + fam, "build": label}
+                d.update(m)
+                ctx.violation(d)
+            if rep["mismatch_count"] > 5:
+                ctx.violations += rep["mismatch_count"] - 5
+            ctx.cov["engines"].append({"name": "MC_PsmNest (%s family, <= %d symbols)" % (fam, syms),
+                                       "role": "programs of nested checkpoints grown as TLC states, replayed on the real ParserState (%s build)" % label,
+                                       "programs": rep["programs"], "cases": rep["cases"], "mismatches": rep["mismatch_count"]})
+        os.remove(cases)
     ctx.cov["exhaustive"] = True
     ctx.cov["exhaustive_scope"] = "each MC_PsmGen slice: all programs up to the size bound x all inputs up to the length bound x both builds"
     batches = []
